@@ -393,3 +393,17 @@ def end_to_end(sx, B):
     """The real gen_coords end to end (the C03.end_to_end harness): supplied atom coordinates are written unchanged, residues given
     as centres are backmapped around exactly those centres, also in combination with -res, a build file, -grid and -start."""
     _c03.end_to_end(sx, B)
+
+
+import harness.C15 as _c15      # noqa: E402
+
+
+@condition("C04.templates_centred",
+           anchors=["polyply.src.build_file_parser:BuildDirector.finalize_section", "polyply.src.generate_templates:GenerateTemplates.gen_templates"],
+           rejects=(), selector_only=True, must_cover=["user template", "template defined twice"],
+           stubs=["as C15.precedence"], bounds={"quick": dict(), "thorough": dict()})
+def templates_centred(sx, B):
+    """'backmapped around exactly those centres': a residue given as a centre is backmapped as centre + factor x template, so the
+    template must have zero centre of geometry whatever the build files supply (C15.precedence harness: supplied templates,
+    supplied volumes, a template defined again in a second build file)."""
+    _c15.precedence(sx, B)
